@@ -13,10 +13,20 @@ body=["From Coq Require Import List NArith ZArith.","From NSQV Require Import mo
 for i,c in enumerate(cases): body.append("Definition c%d := %s."%(i,c['coq']))
 body.append("Definition R := Eval vm_compute in map diag [%s]."%";".join("c%d"%i for i in range(len(cases))))
 body.append("Print R.")
+body.append("Definition W := Eval vm_compute in map mon_where [%s]."%";".join("c%d"%i for i in range(len(cases))))
+body.append("Print W.")
 open(D+'/d.v','w').write("\n".join(body))
 out=subprocess.run(["coqc","-noglob","-Q","/verif/coq","NSQV","d.v"],cwd=D,capture_output=True,text=True)
 print(out.stdout[-3000:], out.stderr[-3000:])
-res=re.findall(r"\((\d+),\s*\[([^\]]*)\]\)", out.stdout.replace("%N",""))
+txt=out.stdout.replace("%N","")
+rpart,wpart=txt.split("W =") if "W =" in txt else (txt,"")
+res=re.findall(r"\(\s*(\d+),\s*\[([^\]]*)\]\)", rpart)
+import ast
+wl=[]
+try:
+    wl=ast.literal_eval(re.sub(r";",",",wpart.split(":")[0].strip()))
+except Exception as e:
+    print("W parse",e, wpart[:300])
 for i,(c,(idx,flags)) in enumerate(zip(cases,res)):
     idx=int(idx)
     if idx or flags.strip():
@@ -24,5 +34,9 @@ for i,(c,(idx,flags)) in enumerate(zip(cases,res)):
         print("CASE",i,c['name'],"first-bad",idx,"flags",flags, c['obs'])
         if idx:
             for l in ev[max(0,idx-6):idx]: print("   ",l[:600])
+        if i < len(wl):
+            for (ei,pp) in wl[i][:3]:
+                print("   MONITOR C%02d flagged at event %d:"%(pp,ei))
+                for l in ev[max(0,ei-4):ei]: print("      ",l[:700])
 json.dump(cases,open('/tmp/corediag_last.json','w'))
 PY
